@@ -241,8 +241,9 @@ func randCase(r *rand.Rand, op string, maxn int) abs.OpCase {
 	case "optimize", "removestyling":
 		ids := []string{"a", "b", "c", "d", "e", "f"}
 		styles := abs.DefMap{}
+		bare := r.Intn(5) == 0 // no definitions at all: inline attributes are the only styling
 		for _, id := range ids {
-			if r.Intn(3) != 0 {
+			if !bare && r.Intn(3) != 0 {
 				styles[id] = abs.Def{ID: id, Tag: "A"}
 			}
 		}
@@ -264,7 +265,7 @@ func randCase(r *rand.Rand, op string, maxn int) abs.OpCase {
 		}
 		regions := abs.DefMap{}
 		for _, id := range []string{"r1", "r2", "r3"} {
-			if r.Intn(2) == 0 {
+			if !bare && r.Intn(2) == 0 {
 				regions[id] = abs.Def{ID: id, Parent: pick(), Tag: "A"}
 			}
 		}
@@ -285,6 +286,9 @@ func randCase(r *rand.Rand, op string, maxn int) abs.OpCase {
 		}
 		c.Pre = mkSubs(items)
 		c.Pre.Styles, c.Pre.Regions = styles, regions
+		if bare {
+			c.Pre.SNil, c.Pre.RNil = r.Intn(2) == 0, r.Intn(2) == 0
+		}
 		return c
 	}
 	c.Pre = mkSubs(items)
